@@ -57,3 +57,34 @@ pub fn shared(prop: &'static str, seed: u64) -> Vec<Scenario> {
     add(Tier::Quick, format!("fund.close.{}", P::new(prop, Sell, seed).tag()), d_fund, 400, 150, Box::new(t_fund(P::new(prop, Sell, seed).concrete_prefix(), 0)));
     v
 }
+
+/// C12: the shared templates with toll and spread symbolic in [0, 1]
+pub fn fees(seed: u64) -> Vec<Scenario> {
+    let prop = "C12";
+    let mut v: Vec<Scenario> = vec![];
+    let mut add = |tier: Tier, name: String, desc: &str, paths: u64, secs: u64, f: Box<dyn Fn()>| {
+        v.push(sc(prop, tier, &format!("c12.{}", name), desc, paths, secs, f));
+    };
+    let d = "toll and spread ratios symbolic in [0,1]; amounts of the transaction under test symbolic (down to values where fees round to zero); balance deltas of fee pool and insurance fund compared with floor(notional x ratio)";
+    for side in [Buy, Sell] {
+        let p = P::new(prop, side.clone(), seed).fees();
+        let pc = p.clone().concrete_prefix();
+        add(Tier::Quick, format!("open.{}", p.tag()), d, 600, 150, Box::new(t_open(p.clone())));
+        add(Tier::Quick, format!("open.{}", p.clone().lev().tag()), d, 600, 150, Box::new(t_open(p.clone().lev())));
+        add(Tier::Quick, format!("inc.{}", p.tag()), d, 600, 150, Box::new(t_open2(pc.clone(), true)));
+        add(Tier::Quick, format!("opp.{}", p.tag()), d, 800, 150, Box::new(t_open2(pc.clone(), false)));
+        add(Tier::Quick, format!("close.against.{}", p.tag()), d, 400, 150, Box::new(t_close(pc.clone(), false)));
+        add(Tier::Quick, format!("close.with.{}", p.tag()), d, 400, 150, Box::new(t_close(pc.clone(), true)));
+        add(Tier::Quick, format!("liq.shallow.{}", p.tag()), d, 400, 150, Box::new(t_liq(pc.clone(), 5)));
+        add(Tier::Thorough, format!("opp.{}", p.clone().lev().tag()), d, 1500, 600, Box::new(t_open2(pc.clone().lev(), false)));
+        add(Tier::Thorough, format!("opp.sym.{}", p.tag()), d, 1500, 600, Box::new(t_open2(p.clone(), false)));
+        add(Tier::Thorough, format!("open.{}", p.clone().wide().lev().tag()), d, 2000, 600, Box::new(t_open(p.clone().wide().lev())));
+        add(Tier::Thorough, format!("liq.deep.{}", p.clone().partial().tag()), d, 600, 300, Box::new(t_liq(pc.clone().partial(), 45)));
+    }
+    let p = P::new(prop, Buy, seed).fees();
+    let pc = p.clone().concrete_prefix();
+    add(Tier::Quick, format!("depwd.{}", p.tag()), d, 400, 120, Box::new(t_depwd(pc.clone())));
+    add(Tier::Quick, format!("fund.close.{}", p.tag()), d, 600, 150, Box::new(t_fund(pc.clone(), 0)));
+    add(Tier::Quick, format!("open.{}", p.clone().native().tag()), d, 600, 150, Box::new(t_open(p.clone().native())));
+    v
+}
